@@ -185,6 +185,12 @@ def run_property(prop, tier, rule_fn, floor, meta):
             rep.selftest = st
             rep.note("selftest: %d breaking mutants caught, %d missed %s, %d benign silent, %d false alarms %s, %d skipped" % (
                 len(st["caught"]), len(st["missed"]), st["missed"], len(st["silent"]), len(st["false_alarm"]), st["false_alarm"], len(st["skipped"])))
+            sd = selftest.run_seeded_for_property(prop)
+            bn = selftest.run_benign_sample(prop)
+            rep.selftest = dict(st, seeded_caught=sd["caught"], seeded_missed=sd["missed"], seeded_skipped=sd["skipped"],
+                                benign_silent=bn["silent"], benign_false_alarm=bn["false_alarm"], benign_skipped=bn["skipped"])
+            rep.note("seeded changes written against %s: %d reported, %d missed %s; behaviour-preserving refactorings (sample): %d silent, %d false alarms %s" % (
+                prop, len(sd["caught"]), len(sd["missed"]), sd["missed"], len(bn["silent"]), len(bn["false_alarm"]), bn["false_alarm"]))
     except Exception as e:  # build failure, internal error: fail closed
         import traceback
         fatal = "%s: %s" % (type(e).__name__, e)
